@@ -263,6 +263,8 @@ async def run_c17(spec: dict[str, Any], hist: History, tr: Tracker) -> None:
                     if u.typ == b'STATUS' and isinstance(u.data, dict):
                         return u.data.get('att', {}).get(b'RECENT')
                 return None
+            tr.harvest(actor)
+            told0 = len(tr.cur[actor.conn.cid].told)    # type: ignore
             r1 = await status_recent()
             cmdline = rng.choice([
                 b'STORE 1:* +FLAGS.SILENT (\\Flagged)',
@@ -273,7 +275,11 @@ async def run_c17(spec: dict[str, Any], hist: History, tr: Tracker) -> None:
             tr.harvest(actor)
             r2 = await status_recent()
             tr.count('flag_change_recent_probes')
-            if r1 is not None and r2 is not None and r1 != r2:
+            # (a server may hand pending messages to the acting read-write
+            # session at any command, provided it tells that session)
+            told1 = len(tr.cur[actor.conn.cid].told)    # type: ignore
+            if r1 is not None and r2 is not None and (
+                    r2 > r1 or r1 - r2 > told1 - told0):
                 hist.report('store-changes-recent:pending-count',
                             '%s by session %d changed STATUS INBOX (RECENT) '
                             'of an unselected observer from %d to %d'
